@@ -1,6 +1,7 @@
 package c06
 
 import (
+	"fmt"
 	"math"
 	"math/big"
 
@@ -295,6 +296,28 @@ func corpus() []corpusCase {
 		// --- capsules
 		{"convert.Convert", "target plain", `capsule null -> string (no conversion)`, conv(cty.NullVal(model.CapsuleA), cty.String)},
 		{"cty.ListVal", "", `list of capsules with a null`, val(func() cty.Value { return cty.ListVal([]cty.Value{model.NewCapA(1), cty.NullVal(model.CapsuleA)}) })},
+	}
+	// a refined unknown encoded for one type, decoded against every other kind of type:
+	// the refinement kind must match the type of whatever comes back
+	refined := []cty.Value{
+		cty.UnknownVal(cty.String).Refine().NotNull().StringPrefixFull(nfd + "x").NewValue(),
+		cty.UnknownVal(cty.Number).Refine().NotNull().NumberRangeLowerBound(cty.NumberIntVal(1), true).NumberRangeUpperBound(cty.MustParseNumberVal("2.5"), false).NewValue(),
+		cty.UnknownVal(cty.List(cty.String)).Refine().CollectionLengthLowerBound(1).CollectionLengthUpperBound(3).NewValue(),
+		cty.UnknownVal(cty.Bool).RefineNotNull(),
+		cty.UnknownVal(cty.Set(cty.Number)).Refine().NotNull().CollectionLengthUpperBound(2).NewValue(),
+	}
+	against := []cty.Type{cty.String, cty.Number, cty.Bool, cty.List(cty.String), cty.Set(cty.Number), cty.Map(cty.Bool), cty.EmptyObject,
+		cty.Tuple([]cty.Type{cty.String}), cty.DynamicPseudoType, cty.List(cty.DynamicPseudoType)}
+	for _, rv := range refined {
+		var enc []byte
+		var err error
+		if o := core.Guard(func() { enc, err = msgpack.Marshal(rv, rv.Type()) }); o.Panicked || err != nil {
+			continue
+		}
+		for _, ty := range against {
+			cs = append(cs, corpusCase{"msgpack.Unmarshal", "valid encoding, related constraint",
+				fmt.Sprintf("refined unknown %#v (bytes %x) decoded as %#v", rv, enc, ty), mpDec(enc, ty)})
+		}
 	}
 	return cs
 }
